@@ -1,6 +1,10 @@
 import Preflate.Props.C03Public
 #print axioms Preflate.public_agrees_spec
 #print axioms Preflate.library_agrees_spec
+#print axioms Preflate.public_agrees_rfc
+#print axioms Preflate.parse_agrees_rfc
+#print axioms Preflate.parseBits_agrees_rfc
+#print axioms Preflate.specRFC_eq_spec_of_plain_header
 #print axioms Preflate.length_tables_are_rfc
 #print axioms Preflate.dist_tables_are_rfc
 #print axioms Preflate.fixed_code_is_rfc
